@@ -153,13 +153,17 @@ def depth(t):
     return 1 + max([depth(c) for c in t[1:] if isinstance(c, list)] + [0])
 
 
-def sympy_ref_value(expr, point, user=True):
+def sympy_ref_value(expr, point, user=True, binding=None):
     """30-digit value of the source SymPy expression with user functions expanded by their definitions."""
     e = expr
     try:
         if user and e.atoms(sympy.Function):
-            for name, fn in USER_SYM.items():
-                e = e.replace(sympy.Function(name), fn)
+            b = binding or {"f1": "f1", "f2": "f2", "f3": "f3"}
+            tmp = {name: sympy.Function("tmp_" + name) for name in b}
+            for name in b:  # two passes so that a permutation of the names is applied simultaneously
+                e = e.replace(sympy.Function(name), tmp[name])
+            for name, target in b.items():
+                e = e.replace(tmp[name], USER_SYM[target])
         fs = {str(s_) for s_ in e.free_symbols}
         v = e.evalf(30, subs={sympy.Symbol(k): sympy.Float(val, 30) for k, val in point.items() if k in fs})
     except Exception:
@@ -181,14 +185,18 @@ def as_real(v):
     return c.real
 
 
-def _double_eval_agrees(expr, point, g):
+def _double_eval_agrees(expr, point, g, binding=None):
     """Evaluate the source expression with plain double-precision arithmetic (lambdify -> math); large intermediate
     arguments of sin/cos/tan lose digits in any double evaluation, which is not a conversion error."""
     try:
         e = expr
         if e.atoms(sympy.Function):
-            for name, fn in USER_SYM.items():
-                e = e.replace(sympy.Function(name), fn)
+            b = binding or {"f1": "f1", "f2": "f2", "f3": "f3"}
+            tmp = {name: sympy.Function("tmp_" + name) for name in b}
+            for name in b:
+                e = e.replace(sympy.Function(name), tmp[name])
+            for name, target in b.items():
+                e = e.replace(tmp[name], USER_SYM[target])
         keys = sorted(str(s_) for s_ in e.free_symbols)
         f = sympy.lambdify([sympy.Symbol(k) for k in keys], e, modules="math")
         v = float(f(*[float(point[k]) for k in keys]))
@@ -197,11 +205,11 @@ def _double_eval_agrees(expr, point, g):
         return False
 
 
-def well_conditioned(expr, point, val):
+def well_conditioned(expr, point, val, binding=None):
     for k in point:
         p2 = dict(point)
         p2[k] = point[k] * (1 + 1e-12) + 1e-13
-        v2 = as_real(sympy_ref_value(expr, p2))
+        v2 = as_real(sympy_ref_value(expr, p2, binding=binding))
         if v2 is None or abs(v2 - val) > 1e-6 * (1 + abs(val)):
             return False
     return True
@@ -231,7 +239,8 @@ def convert_s2c(case, syms_table=None):
         expr = sympy.Matrix([[to_sympy(e, syms) for e in row] for row in case["tree"][1]])
     else:
         expr = to_sympy(case["tree"], syms)
-    f_dict = {k: USER_CA[k] for k in case["fdict_order"]}
+    binding = case.get("binding") or {"f1": "f1", "f2": "f2", "f3": "f3"}  # name used in the expression -> definition bound by this call
+    f_dict = {k: USER_CA[binding[k]] for k in case["fdict_order"] if k in binding}
     table = {} if syms_table is None else syms_table
     f_ca, table2 = s.sympy_to_casadi(expr, f_dict=f_dict, symbols=table, cse=case["cse"])
     return expr, f_ca, table2
@@ -353,6 +362,11 @@ def symtab_case(draw):
         if c["cse"] and draw(st.booleans()):
             c["tree"] = ["reuse", ["add", c["tree"], ["sym", draw(st.sampled_from(["y", "x1", "x2"]))]]]
         c["point"] = dict(c["point"], x2=0.5)
+        # every call binds the user-function names to its own definitions, and may leave one name out of its map
+        perm = draw(st.permutations(["f1", "f2", "f3"]))
+        c["binding"] = dict(zip(["f1", "f2", "f3"], perm))
+        if draw(st.integers(0, 3)) == 0:
+            c["binding"].pop(draw(st.sampled_from(["f1", "f2", "f3"])))
         calls.append(c)
     return {"calls": calls}
 
@@ -361,10 +375,26 @@ def check_symtab(case):
     table = {}  # the caller's own dict object, initially empty, reused for every call (not the returned one)
     seen = {}
     for idx, c in enumerate(case["calls"]):
+        used = {type(a).__name__ for a in to_sympy(c["tree"], {}).atoms(sympy.Function)} & {"f1", "f2", "f3"}
+        missing = used - set(c["binding"])
         try:
             expr, f_ca, returned = convert_s2c(c, table)
         except NotImplementedError:
+            if missing:
+                continue  # the call does not map every user function it uses: raising is the required behaviour
             require(False)
+        if missing:
+            raise Violation("call %d converted an expression that uses %s although its f_dict has no entry for it (a mapping from an "
+                            "earlier call was reused)" % (idx, sorted(missing)), calls=[cc["tree"] for cc in case["calls"]],
+                            bindings=[cc["binding"] for cc in case["calls"]])
+        # value under this call's own bindings
+        ref_ = as_real(sympy_ref_value(expr, c["point"], binding=c["binding"]))
+        if ref_ is not None:
+            g_ = float(eval_ca(f_ca, table, c["point"])[0, 0])
+            if (not math.isfinite(g_) or abs(g_ - ref_) > 1e-9 * (1 + abs(ref_))) and well_conditioned(expr, c["point"], ref_, c["binding"]):
+                if not _double_eval_agrees(expr, c["point"], g_, c["binding"]):
+                    raise Violation("call %d: value %.15g differs from the source expression under this call's own function map %s: %.15g" % (
+                        idx, g_, c["binding"], ref_), calls=[cc["tree"] for cc in case["calls"]], bindings=[cc["binding"] for cc in case["calls"]])
         if sorted(returned) != sorted(table):
             raise Violation("call %d: the symbol table passed by the caller holds %s but the returned table holds %s "
                             "(the caller's table is not the one being filled)" % (idx, sorted(table), sorted(returned)),
@@ -403,7 +433,8 @@ CMP = ["lt", "le", "eq", "ne", "gt", "ge"]
 def c_leaf():
     return st.one_of(
         st.sampled_from(NAMES[:4]).map(lambda n: ["sym", n]),
-        st.sampled_from([0.0, 1.0, 2.0, -1.0, 2.5, -0.5, 3.0, 0.25, -3.0, 7.0]).map(lambda v: ["const", v]),
+        st.sampled_from([0.0, 1.0, 2.0, -1.0, 2.5, -0.5, 3.0, 0.25, -3.0, 7.0, 3e-12, -2e-10, 1 + 4e-10, 41.9999999996, 1e-15,
+                         1e9 + 0.5, 123456.789]).map(lambda v: ["const", v]),
     )
 
 
@@ -558,6 +589,7 @@ def check_c2s(case):
     Fn = ca.Function("Fn", [table[n] for n in names], [ca.densify(ca.vertcat(*[ca.SX(n_) for n_ in nodes]))])
     allv = np.array(Fn.call([ca.DM(case["point"][n]) for n in names])[0], float)
     require(bool(np.all(np.isfinite(allv))) and float(np.max(np.abs(allv))) < 1e12)  # point inside every sub-expression's domain
+    floor = 1e-13 * (1.0 + float(np.max(np.abs(allv))))  # round-off of the double evaluation, relative to the largest intermediate
     call = lambda vals: np.array(F.call([ca.DM(v) for v in vals])[0], float)
     got = call([case["point"][n] for n in names])
     syms = {}
@@ -597,7 +629,7 @@ def check_c2s(case):
             vv = as_real(v)
             if vv is None:
                 continue
-        if abs(vv - g) > 1e-9 * (1 + abs(g)):
+        if abs(vv - g) > 1e-9 * abs(g) + floor:
             # discount ill-conditioned points (value jumps under a 1e-12 perturbation of the inputs)
             pert = call([case["point"][n] * (1 + 1e-12) + 1e-13 for n in names])[i, j]
             pert2 = call([case["point"][n] * (1 - 1e-12) - 1e-13 for n in names])[i, j]
